@@ -15,6 +15,7 @@ import (
 	"os"
 	"sort"
 	"strings"
+	"sync"
 	"time"
 
 	"github.com/PowerDNS/lightningstream/config"
@@ -924,6 +925,63 @@ func clSyncer(ro, enabled, storeOK bool, out *AreaOut) (string, error) {
 	return fmt.Sprintf("CSyncer %s %s %s %d %s %d", cBool(ro), cBool(enabled), cBool(storeOK), stores, cBool(!after.IsZero()), lists), nil
 }
 
+// clRunLiveness: the cleaner goroutine (Worker.Run) survives storage errors of every kind — timeouts and
+// cancellations of a single request included — as long as its OWN context is alive: superseded snapshots keep
+// being removed afterwards
+type clFlakyList struct {
+	clBucket
+	mu    sync.Mutex
+	lists int
+}
+
+func (b *clFlakyList) List(ctx context.Context, prefix string) (simpleblob.BlobList, error) {
+	b.mu.Lock()
+	b.lists++
+	k := b.lists
+	b.mu.Unlock()
+	switch k {
+	case 1:
+		return nil, fmt.Errorf("list %q: request timed out: %w", prefix, context.DeadlineExceeded)
+	case 2:
+		return nil, fmt.Errorf("list %q: request aborted: %w", prefix, context.Canceled)
+	case 3:
+		return nil, errInjected
+	}
+	return simpleblob.BlobList{}, nil
+}
+
+func clRunLiveness(out *AreaOut) {
+	out.OracleN++
+	b := &clFlakyList{}
+	w := cleaner.New("db", b, config.Cleanup{Enabled: true, Interval: 2 * time.Millisecond, MustKeepInterval: time.Second, RemoveOldInstancesInterval: time.Hour}, clLogger())
+	ctx, cancel := context.WithCancel(context.Background())
+	defer cancel()
+	ret := make(chan error, 1)
+	go func() { ret <- w.Run(ctx) }()
+	deadline := time.Now().Add(3 * time.Second)
+	for time.Now().Before(deadline) {
+		b.mu.Lock()
+		k := b.lists
+		b.mu.Unlock()
+		if k >= 6 {
+			break
+		}
+		select {
+		case err := <-ret:
+			out.Oracle = append(out.Oracle, OracleFailure{"C12", "cleaner-stops-on-storage-error", fmt.Sprintf("Worker.Run returned (%v) after %d List calls although its context is alive: nothing is cleaned any more for the rest of the process", err, k), map[string]any{"list_errors": "1: wraps context.DeadlineExceeded, 2: wraps context.Canceled, 3: plain error, then ok"}})
+			return
+		case <-time.After(2 * time.Millisecond):
+		}
+	}
+	cancel()
+	select {
+	case <-ret:
+	case <-time.After(3 * time.Second):
+		out.Oracle = append(out.Oracle, OracleFailure{"C17", "cleaner-run-ignores-cancel", "Worker.Run did not return within 3 s of the cancellation", nil})
+	}
+	hist(out.Hist, "run-liveness")
+}
+
 // ---------------- area ----------------
 
 func areaCleaner(r *Rng, n int, dir string) (*AreaOut, error) {
@@ -932,6 +990,7 @@ func areaCleaner(r *Rng, n int, dir string) (*AreaOut, error) {
 	var cases []string
 	seen := map[string]bool{}
 	nontriv := 0
+	clRunLiveness(out)
 	for i := 0; i < n; i++ {
 		g := clPlan(r)
 		clExec(g, out)
